@@ -477,6 +477,12 @@ func check(prop, tier string) int {
 			}
 			deferred++
 			unlistedHistory++
+			if unlistedHistory <= 3 {
+				// keep the scenario so that the C13 side can look at it
+				os.MkdirAll(filepath.Join(verifDir, "replays", "deferred"), 0o755)
+				bb, _ := json.MarshalIndent(map[string]any{"property": "C06", "engine": f.Engine, "index": f.Index, "seed": f.Seed, "outcome": f.Outcome, "scenario": f.Scenario}, "", " ")
+				os.WriteFile(filepath.Join(verifDir, "replays", "deferred", fmt.Sprintf("C06-%d-%d.json", f.Seed, f.Index)), bb, 0o644)
+			}
 			continue
 		}
 		if k := matchKnown(known, prop, f); k != nil {
